@@ -41,6 +41,7 @@ CORPUS = {
         M("alias-without-single-assignment", G, [("                can_assign_directly = not sym_data.is_overwritten\n                if can_assign_directly:\n                    sym_data.code_expr = (", "                can_assign_directly = True\n                if can_assign_directly:\n                    sym_data.code_expr = (")], ["R01.c"]),
         M("inline-arg-alias-unguarded", G, [("                if arg_sym.is_overwritten:\n                    # need to copy", "                if False:\n                    # need to copy")], ["R01.c"]),
         _GUARD_CONSTPROP,
+        M("alias-of-a-reassigned-value", G, [("                can_assign_directly = not sym_data.is_overwritten and not (\n                    isinstance(value, IC10Register) and value.is_overwritten\n                )\n", "                can_assign_directly = not sym_data.is_overwritten\n")], ["R01.c"]),
         M("prune-name-read-once", CP, [("            if sym_data.is_read == 0:\n                # print", "            if sym_data.is_read <= 1:\n                # print")], ["R01.d"]),
         M("prune-if-arm-without-constness", G, [("        elif isinstance(test_node, (nodes.BoolOp, nodes.Name, nodes.Attribute)):\n            data.add(", "        elif isinstance(test_node, (nodes.BoolOp, nodes.Name, nodes.Attribute)):\n            emit_else = False\n            data.add(")], ["R01.d"]),
         M("continue-skips-increment", G, [("        data.start_label = continue_label\n        data.end_label = end_label\n\n        iter_sym", "        data.start_label = for_label\n        data.end_label = end_label\n\n        iter_sym")], ["R01.e"]),
@@ -90,6 +91,8 @@ CORPUS = {
         N("add-floor-to-math-names", U, [('    "exp",\n}', '    "exp",\n    "floor",\n}')]),
     ],
     "C04": [
+        M("alias-accesses-not-recorded", G, [("                    if isinstance(value, IC10Register):\n                        # the shared register stays in use as long as the new name is\n                        value.nodes_alias.extend(\n                            sym_data.nodes_reading + sym_data.nodes_writing\n                        )\n", "")], ["R04.h"]),
+        M("alias-accesses-not-in-lifetime", T, [("accesses = self.nodes_reading + self.nodes_writing + self.nodes_alias", "accesses = self.nodes_reading + self.nodes_writing")], ["R04.h"]),
         M("widening-stops-at-nearest-loop", U, [("            loop = par\n            if all(par.parent_of(a) for a in accesses):\n                break\n", "            loop = par\n            break\n")], ["R04.d"]),
         M("accesses-not-handed-to-the-widening", T, [("all_nodes = [get_loop_ancestor(n, accesses) for n in accesses]", "all_nodes = [get_loop_ancestor(n) for n in accesses]")], ["R04.d"]),
         N("widening-to-the-outermost-loop", U, [("            loop = par\n            if all(par.parent_of(a) for a in accesses):\n                break\n", "            loop = par\n")]),
